@@ -80,6 +80,8 @@ func NewSortReg() *SortReg {
 		"(assert (forall ((b Bytes)) (! (= (cnt_Bytes b) (ite (bnil b) emptystr (bcontent b))) :pattern ((cnt_Bytes b)))))",
 		"(declare-fun cat_Bytes (Bytes Bytes) Bytes)",
 		"(assert (forall ((a Bytes) (b Bytes)) (! (= (cat_Bytes a b) (mk_Bytes (cat_Str (cnt_Bytes a) (cnt_Bytes b)) (and (bnil a) (= (len_Bytes b) 0)))) :pattern ((cat_Bytes a b)))))",
+		// derived fact, stated for trigger reasons: the first byte of a concatenation is the first byte of its non-empty head
+		"(assert (forall ((a Bytes) (b Bytes)) (! (=> (> (len_Bytes a) 0) (and (= (at_Str (bcontent (cat_Bytes a b)) 0) (at_Str (cnt_Bytes a) 0)) (> (len_Bytes (cat_Bytes a b)) 0))) :pattern ((cat_Bytes a b)))))",
 		"(define-fun sub_Bytes ((s Bytes) (a Int) (b Int)) Bytes (mk_Bytes (sub_Str (bcontent s) a b) (bnil s)))",
 		"(define-fun upd_Bytes ((s Bytes) (k Int) (v Int)) Bytes (mk_Bytes (upd_Str (bcontent s) k v) (bnil s)))",
 		"(define-fun tobytes ((s Str)) Bytes (mk_Bytes s false))",
@@ -161,8 +163,12 @@ func (r *SortReg) seqSort(elem string, elemGo types.Type, name string) *SeqInfo 
 	// extensionality (skolemised), triggered by the marker ext_<sort>
 	d("(declare-fun ext_%s (%s %s) Bool)", name, name, name)
 	d("(declare-fun extd_%s (%s %s) Int)", name, name, name)
-	d("(assert (forall ((a %s) (b %s)) (! (=> (and (ext_%s a b) (= (%s a) (%s b)) (= (%s a) (%s b)) (=> (and (<= 0 (extd_%s a b)) (< (extd_%s a b) (%s a))) (= (%s a (extd_%s a b)) (%s b (extd_%s a b))))) (= a b)) :pattern ((ext_%s a b)))))",
-		name, name, name, si.Len, si.Len, si.IsNil, si.IsNil, name, name, si.Len, si.At, name, si.At, name, name)
+	nilEq := fmt.Sprintf("(= (%s a) (%s b))", si.IsNil, si.IsNil)
+	if name == "Str" {
+		nilEq = "true" // strings are pure contents
+	}
+	d("(assert (forall ((a %s) (b %s)) (! (=> (and (ext_%s a b) (= (%s a) (%s b)) %s (=> (and (<= 0 (extd_%s a b)) (< (extd_%s a b) (%s a))) (= (%s a (extd_%s a b)) (%s b (extd_%s a b))))) (= a b)) :pattern ((ext_%s a b)))))",
+		name, name, name, si.Len, si.Len, nilEq, name, name, si.Len, si.At, name, si.At, name, name)
 	return si
 }
 
